@@ -4,7 +4,7 @@ with them; a ContractBroken raised inside a test is a violation witnessed by the
 from __future__ import annotations
 
 import os
-from typing import Any, Dict, List
+from typing import Any, Dict, List, Optional
 
 from hv import core
 
@@ -23,8 +23,19 @@ class _Plugin:
                 self.contract_hits.append(f"{report.nodeid}: {txt[i:i + 400]}")
 
 
-def run(test_file: str, res: core.CaseResult, ctx: Any, must_pass: List[str]) -> None:
+def stable_tests(test_file: str) -> List[str]:
+    """Names of the tests of <test_file> that pass on the pinned tree without any harness contract (from the baseline)."""
+    import json
+
+    with open(os.path.join(os.path.dirname(os.path.abspath(__file__)), "stable_tests.json")) as fh:
+        return json.load(fh).get(test_file, [])
+
+
+def run(test_file: str, res: core.CaseResult, ctx: Any, must_pass: Optional[List[str]] = None) -> None:
     import pytest
+
+    if must_pass is None:
+        must_pass = stable_tests(test_file)
 
     path = os.path.join(core.REPO, "tests", test_file)
     plug = _Plugin()
